@@ -7,7 +7,9 @@
 pub mod util;
 #[macro_use]
 pub mod fw;
+pub mod bytedec;
 pub mod child;
+pub mod fuzzdec;
 pub mod dist;
 pub mod gen;
 pub mod pmh;
@@ -79,6 +81,24 @@ pub fn cli_main() {
                 outln!("replay of {} ({} / {}): property held", args[2], p, sub);
             }
             finish(&ctx);
+        }
+        "fuzz-one" => {
+            // run one fuzz input through a property's fuzz entry (reproduction of libFuzzer artifacts on the plain build)
+            if args.len() < 4 {
+                usage();
+            }
+            util::install_panic_hook();
+            let data = std::fs::read(&args[3]).unwrap_or_default();
+            match util::catch(|| fuzzdec::fuzz(&args[2], &data)) {
+                Ok(()) => {
+                    outln!("fuzz input {}: property held", args[3]);
+                    std::process::exit(0)
+                }
+                Err(p) => {
+                    outln!("{}", p);
+                    std::process::exit(1)
+                }
+            }
         }
         "child" => {
             if args.len() < 5 {
